@@ -8,10 +8,12 @@ def _work(job):
     prop, cmod_name, index, tier, seed, shard = job
     from pyvc.contract import Verifier
     rep = Report(prop, tier, seed)
+    t0 = time.time()
     try:
         cmod = importlib.import_module(cmod_name)
         v = Verifier(rep, prop, cmod_name, seed)
         v.verify(cmod.CONTRACTS[index], index, shard)
+        rep.extra["contract_times"] = [(f"{cmod_name}[{index}]{shard}", round(time.time() - t0, 2), cmod.CONTRACTS[index].notes)]
         st = v.it
         rep.extra["queries"] = st.nq
     except Exception:
@@ -38,12 +40,14 @@ def merge(rep, d):
     rep.crosscheck["samples"] += d["crosscheck"]["samples"]; rep.crosscheck["disagreements"] += d["crosscheck"]["disagreements"]
     rep.engine_errors += d["engine_errors"]; rep.havoced |= set(d["havoced"]); rep.kf_lines += d["kf_lines"]
     rep.extra["queries"] = rep.extra.get("queries", 0) + d["extra"].get("queries", 0)
+    rep.extra.setdefault("contract_times", [])
+    rep.extra["contract_times"] += d["extra"].get("contract_times", [])
 
 
 def run_contracts(rep, cmod_name, tier, seed, select=None, workers=16):
     cmod = importlib.import_module(cmod_name)
     jobs = [(rep.prop, cmod_name, i, tier, seed, (k, c.shards)) for i, c in enumerate(cmod.CONTRACTS)
-            if rep.prop in c.props and (select is None or select(c)) for k in range(c.shards)]
+            if rep.prop in c.props and (select is None or select(c)) and (tier == "thorough" or c.tier != "thorough") for k in range(c.shards)]
     jobs.sort(key=lambda j: -j[5][1])
     if os.environ.get("VERIF_SERIAL"):
         for j in jobs:
@@ -122,3 +126,26 @@ def run_lemmas(rep, cmod_name, tier, seed, workers=16):
     with ProcessPoolExecutor(max_workers=min(workers, len(jobs))) as ex:
         for d in ex.map(_lemma_work, jobs):
             merge(rep, d)
+
+
+def replay_known_findings(rep):
+    """replay every listed known finding of this property natively; print KNOWN-FINDING only while it still fails"""
+    from concurrent.futures import ThreadPoolExecutor
+    from vlib.common import load_known_findings, run_native
+    kfs = [k for k in load_known_findings().get("findings", []) if k["property"] == rep.prop or rep.prop in k.get("also", [])]
+
+    def one(k):
+        try:
+            rc, out, err = run_native(k["python"], timeout=120)
+        except Exception as e:
+            return k, None, str(e)
+        return k, rc, err
+    with ThreadPoolExecutor(max_workers=8) as ex:
+        for k, rc, err in ex.map(one, kfs):
+            if rc == 17:
+                rep.known_finding(k, True)
+            elif rc == 0:
+                rep.extra.setdefault("known_findings_no_longer_failing", []).append(k["id"])
+            else:
+                rep.engine_error(f"known-finding replay {k['id']} failed to run: rc={rc} {str(err)[-300:]}")
+    rep.extra["known_findings_listed"] = [k["id"] for k in kfs]
